@@ -83,6 +83,28 @@ CHECKS = {
         "every core operation again to every result of the structure-creating ones. Every block of every result must carry the operand's dtype (the real counterpart for singular values, eigenvalues, "
         "abs, norm), the value must match the same call in double precision, and numpy's ComplexWarning is turned into an error so a discarded imaginary part cannot pass silently.",
    note="Trusted: numpy promotion rules as reference for 'same type'. Arrays without blocks carry no dtype and are skipped. Decomposition values are judged in C11/C12."),
+ "C11": dict(engine="E-enum", design_ref="DESIGN.md 5 C11",
+   technique="exhaustive enumeration of matrix structures (charge subsets x block-shape patterns x directions x charges x sparsity x pending signs x dtype) on the real qr/svd/eigh/solve; oracle = reconstruction through the library's own contraction + blockwise structural laws",
+   text="Every matrix structure of the bounded universe - direct matrices with tall, wide, square, 1xk and rank-one blocks and every small 3-index array fused to a matrix in six ways; abelian and "
+        "fermionic with pending signs; all four direction patterns; every total charge; missing blocks; real and complex - is decomposed by qr, stabilised qr (both spellings), svd, eigh (Hermitian "
+        "charge-zero matrices) and solve (every right-hand-side charge), via symmray.linalg and autoray. Products rebuilt with the library's tensordot / multiply_diagonal must equal the input in the harness "
+        "embedding; Q/U blocks must have orthonormal columns, V-dagger orthonormal rows, R upper triangular (non-negative real diagonal when stabilised), s non-negative non-increasing per charge; the bond must have "
+        "opposite directions, one charge per input block with size min(shape); factor charges, outer indices and validity (R-audit) are checked; a.x == b with the right charge and index.",
+   note="Trusted: LAPACK through numpy on small blocks; tolerance 1e-8..1e-9; block values are seeded Gaussians (structure is what is enumerated)."),
+ "C12": dict(engine="E-enum", design_ref="DESIGN.md 5 C12",
+   technique="same exhaustive matrix-structure enumeration as C11; oracle = numpy.linalg on the harness's dense embedding",
+   text="For every matrix of the C11 universe the multiset of returned singular values must equal the non-zero singular values of the dense embedding (abelian and fermionic), norm() the dense "
+        "Frobenius norm; for abelian Hermitian charge-zero matrices the returned eigenvalues must equal the dense eigenvalues on the stored sectors, and solve(a, b) embedded must equal "
+        "numpy.linalg.solve on the embedded square system.",
+   note="Trusted: numpy.linalg on the dense embedding, tolerance 1e-8; singular values below 1e-8*s_max count as zero on both sides."),
+ "C13": dict(engine="E-enum", design_ref="DESIGN.md 5 C13, 4.5",
+   technique="exhaustive enumeration of cutoff mode x decision interval x bond limit x absorb option over matrices with designed spectra on the real svd_truncated; reference = the truncation rule R-trunc",
+   text="Matrices are assembled blockwise from known singular values spread over 1-3 charges (several menus, plus ties), for all direction patterns, even / odd charge, abelian / fermionic with pending signs, "
+        "real / complex. For each, all six cutoff modes x a cutoff inside every decision interval (and two beyond the total weight) x every bond limit from 1 to rank+1 and none x every absorb "
+        "option are run: kept values must be exactly the largest ones the rule permits, every kept >= every discarded, the kept count must not grow with the cutoff, with no cutoff the bond equals the limit "
+        "split over charges keeping each charge's largest, |x - U s V|^2 must equal the discarded weight, the absorb variants must give the same product, and the truncated factors must be valid "
+        "with matching bond tables and emptied charges removed.",
+   note="Trusted: designed spectra (cross-checked against numpy's dense svd); cutoffs are placed at midpoints between thresholds; latitude: where the rule permits no value, none or only the largest are accepted."),
 }
 
 _ALL = ["C%02d" % i for i in range(1, 21)]
